@@ -956,6 +956,11 @@ func (fr *Frame) havocTarget(ctx *EvalCtx, e Expr) {
 			return
 		}
 	case EIdent:
+		if e.Name == "chanState" {
+			fr.R.Heap.register(chanClosedComp, ArraySort(SInt, SBool))
+			h.Havoc(fr.st, chanClosedComp)
+			return
+		}
 		if v, ok := ctx.vars["&"+e.Name]; ok {
 			el := v.Ty.(*types.Pointer).Elem()
 			l := fr.locOf(Val{T: v.T, Loc: v.Loc}, el)
